@@ -1,5 +1,6 @@
 """Per-property configuration: case streams, non-triviality rule, theorem module."""
 from . import genexpr as gx
+from . import genstate as gs
 
 TRUSTED_COMMON = [
     "Lean 4.33.0 kernel; axioms propext, Classical.choice, Quot.sound only (audited per theorem on every run)",
@@ -89,3 +90,12 @@ reg(Prop("C28",
          "Equal on identical / one-token-mutated / unrelated trees; FindAll for each kind; ReplaceAll with a width-"
          "selective rule; Exprs/EffectApply on random effects; non-trivial = tree with more than one node",
          3000, 150000))
+
+reg(Prop("C17",
+         [("inew", gs.g_inew, 1), ("ibin", gs.g_ibin, 3)],
+         has("multi"),
+         "interval lists over [-4,45] with forced adjacency, equal begins, nesting, one interval spanning several; "
+         "NewMap and union/difference/intersection of two sets; membership compared at every end point +-1; "
+         "non-trivial = both operands have >= 2 intervals (>= 3 raw intervals for NewMap)",
+         3000, 300000,
+         trusted=["sort.Slice modelled as a stable merge sort on begin"]))
